@@ -218,18 +218,16 @@ def parseReal (radix : Nat) (s : Text) : Option RealLit :=
   | some r => some r
   | none => parseRealPlain radix s
 
-/-- indices of the sign characters as `split_into_complex` collects them (a character after
-    `e`/`E` is skipped); `none` when there are more than two. -/
-def signIdxs : Nat → List Nat → Text → Option (List Nat)
-  | _, acc, [] => some acc.reverse
-  | i, acc, c :: cs =>
+/-- indices of the sign characters as `split_into_complex` collects them (the character after an
+    `e`/`E` is skipped: `skip`); `none` when there are more than two. -/
+def signIdxs : Bool → Nat → List Nat → Text → Option (List Nat)
+  | _, _, acc, [] => some acc.reverse
+  | true, i, acc, _ :: cs => signIdxs false (i + 1) acc cs
+  | false, i, acc, c :: cs =>
     if c == '+' || c == '-' then
-      if acc.length == 2 then none else signIdxs (i + 1) (i :: acc) cs
-    else if c == 'e' || c == 'E' then
-      match cs with
-      | [] => some acc.reverse
-      | _ :: cs' => signIdxs (i + 2) acc cs'
-    else signIdxs (i + 1) acc cs
+      if acc.length == 2 then none else signIdxs false (i + 1) (i :: acc) cs
+    else if c == 'e' || c == 'E' then signIdxs true (i + 1) acc cs
+    else signIdxs false (i + 1) acc cs
 
 inductive NumPart
   | real (s : Text)
@@ -241,7 +239,7 @@ def classifyPart (s : Text) : NumPart :=
   | _ => .real s
 
 def splitComplex (s : Text) : Option (List NumPart) :=
-  match signIdxs 0 [] s with
+  match signIdxs false 0 [] s with
   | none => none
   | some [] => some [classifyPart s]
   | some [0] => some [classifyPart s]
@@ -422,16 +420,17 @@ def isWordStop (c : Char) : Bool :=
   c == '(' || c == '[' || c == ')' || c == ']' || c == '{' || c == '}' || isWs c ||
   c == '\'' || c == '"' || c == '`' || c == ';' || c == ','
 
-/-- the unescaped loop of `read_word`: characters eaten, rest -/
-def scanWord : Text → Text × Text
-  | [] => ([], [])
-  | c :: cs =>
+/-- the unescaped loop of `read_word`: characters eaten, rest.  `esc` = the previous character was
+    a backslash (`'\\' => { eat; eat }`: the next character is eaten whatever it is). -/
+def scanWordAux : Bool → Text → Text × Text
+  | _, [] => ([], [])
+  | true, c :: cs => let (w, r) := scanWordAux false cs; (c :: w, r)
+  | false, c :: cs =>
     if isWordStop c then ([], c :: cs)
-    else if c == '\\' then
-      match cs with
-      | [] => (['\\'], [])
-      | d :: cs' => let (w, r) := scanWord cs'; ('\\' :: d :: w, r)
-    else let (w, r) := scanWord cs; (c :: w, r)
+    else if c == '\\' then let (w, r) := scanWordAux true cs; (c :: w, r)
+    else let (w, r) := scanWordAux false cs; (c :: w, r)
+
+def scanWord (cs : Text) : Text × Text := scanWordAux false cs
 
 def kwOf (s : Text) : Option Tok :=
   if s == t!"." then some .dot
@@ -572,21 +571,19 @@ def parseCharName (s : Text) : Except LexErrKind Char :=
           | none => .error .invalidHexLiteral
           | some n => if validScalar n then .ok (Char.ofNat n) else .error (.invalidCodePoint n)
 
-/-- the scanning loop of `read_hash_value` -/
-def scanHash : Text → Text × Text
-  | [] => ([], [])
-  | c :: cs =>
-    if c == '\\' then
-      match cs with
-      | [] => (['\\'], [])
-      | d :: cs' => let (w, r) := scanHash cs'; ('\\' :: d :: w, r)
+/-- the scanning loop of `read_hash_value` (`esc` as in `scanWordAux`) -/
+def scanHashAux : Bool → Text → Text × Text
+  | _, [] => ([], [])
+  | true, c :: cs => let (w, r) := scanHashAux false cs; (c :: w, r)
+  | false, c :: cs =>
+    if c == '\\' then let (w, r) := scanHashAux true cs; (c :: w, r)
     else if c == '\'' || c == '`' then ([c], cs)
     else if c == ',' then
-      match cs with
-      | '@' :: cs' => ([',', '@'], cs')
-      | _ => ([','], cs)
+      (if cs.head? == some '@' then ([',', '@'], cs.tail) else ([','], cs))
     else if c == '(' || c == '[' || c == ')' || c == ']' || isWs c then ([], c :: cs)
-    else let (w, r) := scanHash cs; (c :: w, r)
+    else let (w, r) := scanHashAux false cs; (c :: w, r)
+
+def scanHash (cs : Text) : Text × Text := scanHashAux false cs
 
 /-- `read_hash_value`, after `#` (position `pos` is after the `#`). `tokStart` for error spans. -/
 def readHash (tokStart pos : Nat) (cs : Text) : Step :=
@@ -614,16 +611,19 @@ def readHash (tokStart pos : Nat) (cs : Text) : Step :=
         else readWord slice p r
       | _ => readWord slice p r
 
-def nestComment : Nat → Nat → Text → Step
-  | _, pos, [] => { res := .error .incompleteComment, pos, rest := [] }
-  | _, pos, [c] => { res := .error .incompleteComment, pos := pos + c.utf8Size, rest := [] }
-  | depth, pos, c :: d :: cs' =>
+/-- `read_nestable_comment` after `#|`.  `prev`: 1 = the previous character was a `|` that did not
+    close anything yet, 2 = it was a `#` that did not open anything yet, 0 otherwise. -/
+def nestComment : Nat → Nat → Nat → Text → Step
+  | _, _, pos, [] => { res := .error .incompleteComment, pos, rest := [] }
+  | prev, depth, pos, c :: cs =>
     let pos1 := pos + c.utf8Size
-    if c == '|' && d == '#' then
-      if depth ≤ 1 then { res := .ok (.comment false), pos := pos1 + 1, rest := cs' }
-      else nestComment (depth - 1) (pos1 + 1) cs'
-    else if c == '#' && d == '|' then nestComment (depth + 1) (pos1 + 1) cs'
-    else nestComment depth pos1 (d :: cs')
+    if prev == 1 && c == '#' then
+      if depth ≤ 1 then { res := .ok (.comment false), pos := pos1, rest := cs }
+      else nestComment 0 (depth - 1) pos1 cs
+    else if prev == 2 && c == '|' then nestComment 0 (depth + 1) pos1 cs
+    else if c == '|' then nestComment 1 depth pos1 cs
+    else if c == '#' then nestComment 2 depth pos1 cs
+    else nestComment 0 depth pos1 cs
 
 /-- rest of a line comment: characters eaten (including the newline), rest -/
 def restOfLine : Text → Text × Text
@@ -660,7 +660,7 @@ def lexOne (pos : Nat) (c : Char) (cs : Text) : Step :=
     | d :: cs' =>
       if d == 'x' || d == 'X' || d == 'd' || d == 'D' || d == 'o' || d == 'O' || d == 'b' || d == 'B' then
         readNumber [c, d] (p1 + 1) cs'
-      else if d == '|' then nestComment 1 (p1 + 1) cs'
+      else if d == '|' then nestComment 0 1 (p1 + 1) cs'
       else if d == ';' then { res := .ok .dcomment, pos := p1 + 1, rest := cs' }
       else if d == '#' then { res := .error (.unexpectedChar '#'), pos := p1 + 1, rest := cs' }
       else if d == '<' then
